@@ -684,8 +684,8 @@ func serMonitors(s *serArgs, first []byte, mutated *layers.GRE, opts gopacket.Se
 			break
 		}
 	}
-	// C07 idempotence: the same (mutated) object again
-	out2, err2, pan2 := serializeOnce(mutated, "fresh", s.payload, opts)
+	// C07 idempotence: the same (mutated) object again, over the same payload and the same buffer history
+	out2, err2, pan2 := serializeOnce(mutated, s.hist, s.payload, opts)
 	if pan2 {
 		lib.Finding("C07", "lgre:ser-panic:"+lastSite, "second SerializeTo panicked")
 	} else if err2 != nil || !bytes.Equal(out2, first) {
